@@ -21,7 +21,8 @@ THEOREMS = [
     "c15_real_codec_stdio", "c15_real_codec_stdio_line", "c15_real_codec_http", "c15_real_codec_sse",
     "c15_real_transcript", "c15_helpers_agree",
     "c15_client_trace_shape", "c15_client_init_once", "c15_client_lazy_init", "c15_client_initialized_stable", "c15_client_agnostic",
-    "c15_url_rules_translated", "c15_url_heuristics", "c15_detect_sound", "c15_detect_probes", "c15_fallback_decision",
+    "c15_url_heuristics", "c15_detect_sound", "c15_detect_probes", "c15_detect_guard",
+    "c15_fallback_decision", "c15_try_sse_decision",
 ]
 RULE = (
     "conversations of 1..4 sequential exchanges: client call = every discovered typed helper / send_initialize / "
@@ -532,14 +533,17 @@ class Detection(Suite):
     def impl(self, case):
         return D.run_case(case)
 
-    def model_line(self, case):
-        return D.model_line(case)
+    def model_line(self, case, obs=None):
+        return D.model_line(case, obs)
 
     def compare(self, case, obs, m):
         if obs.get("harness_error"):
             return None
         if m.get("translatable") is False:
-            return "Gen/UrlRules.lean: the functions no longer have the shapes the model assumes"
+            _SUITE.feats = _SUITE.feats or __import__("collections").Counter()
+            _SUITE.feats["url-tables:not-reread(verified-commit tables)"] += 1
+        if canon(obs["factory"]) != canon(D.factory_expected(obs["factory"])):
+            return f"transport factory / not-started guards: {canon(obs['factory'])[:300]}"
         a, b = D.shape(obs), D.expected(case, m)
         for k in a:
             if canon(a[k]) != canon(b[k]):
@@ -550,7 +554,8 @@ class Detection(Suite):
         if obs.get("harness_error"):
             _SUITE.harness_errors += 1
             return "harness-error"
-        return f"detect/{obs['detect']}/fallback-{obs['fallback']['k']}/gets{sum(1 for r in obs['detect_requests'] if r[0] == 'GET')}"
+        return (f"detect/{obs['detect']}/fallback-{obs['fallback']['k']}/gets{sum(1 for r in obs['detect_requests'] if r[0] == 'GET')}"
+                f"/try_sse-{obs['try_sse']['k']}" + ("/no-http-client" if case.get("client_fails") else ""))
 
     def nontrivial(self, case, obs):
         return not obs.get("harness_error")
